@@ -74,8 +74,15 @@ let part2 op ks ps args =
     | "module" -> h m.Model.g_p ^ " " ^ h m.Model.g_p1 ^ " " ^ h m.Model.g_r
     | "ctor.mgi" -> elt (Model.mga_of_mgi k m a.(0))
     | "ctor.ruint" | "ctor.mpz" | "assign.ruint" -> elt (Model.mga_of_ruint k m a.(0))
-    | "ctor.u64" | "ctor.u32" -> elt (Model.mga_of_unsigned k m a.(0))
-    | "ctor.i64" | "ctor.i32" -> elt (Model.mga_of_signed k m a.(0))
+    | "ctor.u64" | "ctor.u32" | "ctor.u16" | "ctor.u8" | "ctor.ull" -> elt (Model.mga_of_unsigned k m a.(0))
+    | "ctor.i64" | "ctor.i32" | "ctor.i16" | "ctor.i8" | "ctor.ll" | "ctor.double" -> elt (Model.mga_of_signed k m a.(0))
+    | "mul.Ti" | "mul.Tiin" | "mul.opTi" | "mul.opTil" -> elt (Model.mga_mul_Ti k m a.(0) a.(1))
+    | "add.Ti" | "add.opTi" -> elt (Model.mga_add k m a.(0) (Model.mga_of_signed k m a.(1)))
+    | "sub.Ti" -> elt (Model.mga_sub k m a.(0) (Model.mga_of_signed k m a.(1)))
+    | "sub.Timinus" -> elt (Model.mga_neg k m (Model.mga_sub k m a.(0) (Model.mga_of_signed k m a.(1))))
+    | "div.Ti" -> elt (Model.mga_div k m a.(0) (Model.mga_of_signed k m a.(1)))
+    | "addmul.Ti" -> elt (Model.mga_addmul k m a.(0) a.(1) (Model.mga_of_signed k m a.(2)))
+    | "inv.Ti" -> elt (Model.mga_inv_Ti k m a.(0))
     | "ctor.rint" -> elt (Model.mga_of_rint k m a.(0))
     | "ctor.copy" -> elt a.(0)
     | "ctor.default" -> elt Model.Z0
@@ -108,14 +115,22 @@ let part2 op ks ps args =
     match name with
     | "module" -> h p
     | "ctor.mga" -> let m = memo mga_cache key (fun () -> Model.mga_init_module k p) in elt (Model.mgi_of_mga k m a.(0))
-    | "ctor.ruint" | "ctor.mpz" | "assign.ruint" | "ctor.u64" | "ctor.u32" | "ctor.copy" -> elt (Model.mgi_of_ruint p a.(0))
-    | "ctor.i64" | "ctor.i32" -> elt (Model.mgi_of_signed k p a.(0))
+    | "ctor.ruint" | "ctor.mpz" | "assign.ruint" | "ctor.u64" | "ctor.u32" | "ctor.u16" | "ctor.u8" | "ctor.ull" | "ctor.copy" -> elt (Model.mgi_of_ruint p a.(0))
+    | "ctor.i64" | "ctor.i32" | "ctor.i16" | "ctor.i8" | "ctor.ll" | "ctor.double" -> elt (Model.mgi_of_signed k p a.(0))
+    | "mul.Ti" | "mul.Tiin" | "mul.opTi" | "mul.opTil" -> elt (Model.mgi_mul_Ti k p a.(0) a.(1))
+    | "add.Ti" | "add.opTi" -> elt (Model.mgi_add k p a.(0) (Model.mgi_of_signed k p a.(1)))
+    | "sub.Ti" -> elt (Model.mgi_sub k p a.(0) (Model.mgi_of_signed k p a.(1)))
+    | "sub.Timinus" -> elt (Model.mgi_neg k p (Model.mgi_sub k p a.(0) (Model.mgi_of_signed k p a.(1))))
+    | "div.Ti" -> elt (Model.mgi_div k p a.(0) (Model.mgi_of_signed k p a.(1)))
+    | "addmul.Ti" -> elt (Model.mgi_addmul p a.(0) a.(1) (Model.mgi_of_signed k p a.(2)))
+    | "inv.Ti" -> elt (Model.mgi_inv_Ti k p a.(0))
     | "ctor.rint" -> elt (Model.mgi_of_rint k p a.(0))
     | "ctor.default" -> elt Model.Z0
     | "get.ruint" | "get.mpz" -> h a.(0)
     | "get.reduction" -> h (Model.mgi_of_ruint p a.(0))
     | "get.u64" -> h (Model.u64 a.(0))
-    | "mul.abc" | "mul.ab" | "mul.op" | "mul.opeq" | "mul.T" | "mul.Tin" -> elt (Model.mgi_mul p a.(0) a.(1))
+    | "mul.abc" | "mul.ab" | "mul.op" | "mul.opeq" -> elt (Model.mgi_mul p a.(0) a.(1))
+    | "mul.T" | "mul.Tin" -> elt (Model.mgi_mul_T p a.(0) a.(1))
     | "mul.alias" | "square.ab" | "square.a" -> elt (Model.mgi_mul p a.(0) a.(0))
     | "add.abc" | "add.ab" | "add.op" | "add.opeq" -> elt (Model.mgi_add k p a.(0) a.(1))
     | "add.T" -> elt (Model.mgi_add_T k p a.(0) a.(1))
@@ -126,7 +141,8 @@ let part2 op ks ps args =
     | "sub.Tminus" -> elt (Model.mgi_T_sub k p a.(1) a.(0))
     | "sub.dec" -> elt (Model.mgi_subin k p a.(0) (Model.mgi_of_ruint p (zi 1)))
     | "neg.ab" | "neg.a" | "neg.op" -> elt (Model.mgi_neg k p a.(0))
-    | "inv.ab" | "inv.a" | "inv.T" -> elt (Model.mgi_inv k p a.(0))
+    | "inv.ab" | "inv.a" -> elt (Model.mgi_inv k p a.(0))
+    | "inv.T" -> elt (Model.mgi_inv_T k p a.(0))
     | "div.abc" | "div.ab" | "div.op" | "div.opeq" -> elt (Model.mgi_div k p a.(0) a.(1))
     | "addmul.abc" -> elt (Model.mgi_addmul p a.(0) a.(1) a.(2))
     | "exp.u64" -> elt (Model.mgi_exp p (nat_of_int 64) a.(0) a.(1))
@@ -142,6 +158,11 @@ let part2 op ks ps args =
     match name with
     | "ctor.p" | "ctor.copy" | "ctor.assign" -> fields ()
     | "assign.mul" | "mul" | "mulin" -> elt (Model.mr_mul k m a.(0) a.(1))
+    | "assign.use" | "copy.use" ->
+      let u = Model.mr_init k m a.(0) in
+      let w = Model.mr_add k m (Model.mr_mul k m (Model.mr_inv k m u) u) u in
+      let r = Model.mr_inv k m a.(1) in
+      h w ^ " " ^ h (Model.mr_convert k m w) ^ " " ^ h r ^ " " ^ h (Model.mr_convert k m r)
     | "reduc" -> h (Model.mr_reduc k m a.(0))
     | "to_mg" | "to_mg.in" -> elt (Model.mr_to_mg k m a.(0))
     | "add" | "addin" -> elt (Model.mr_add k m a.(0) a.(1))
